@@ -28,6 +28,12 @@ CHECKS = {
             "All opcode modules x 256 opcodes x category sets; equality with `opcode` of the 9 installed interpreters; reference-free invariants for the rest; tables dumped on several hosts must be identical.", "7/C09"),
     "C15": ("exploration", "differential runtime monitoring over the (opcode, operand) grid against dis.stack_effect of each interpreter",
             "Every opcode of 3.6-3.13 x a dense operand grid (0..300, powers of two +-1, samples; thorough 0..65536) equals dis.stack_effect wherever CPython accepts the pair; 2.x has no reference.", "7/C15"),
+    "C14": ("exploration", "differential runtime monitoring of xdis.marsh against the host's built-in marshal on seeded plain values, with structural shrinking of failing values",
+            "Held on the generated values only (every host 3.8-3.13, every value kind the statement names, both directions and the file-object API); NaNs are compared as 'is a NaN'.", "7/C14"),
+    "C16": ("exploration", "runtime monitoring of native->portable->native round trips on each host with a snapshot/postcondition contract on the real replace()",
+            "Every code object of the sampled stdlib files and generated programs on each host converts to the host's portable type and back with all attributes, co_lines() and co_positions() equal; replace() leaves the original unchanged.", "7/C16"),
+    "C20": ("exploration", "differential runtime monitoring of xdis.std against the host's dis on live objects + cross-host comparison of make_std_api(V) with the native default API",
+            "Same-named xdis.std functions return dis's data for the sampled functions/methods/generators/coroutines/code/source strings on each host; CACHE pseudo-instructions and 3.13's label-based is_jump_target on exception-range bounds are documented non-demands.", "7/C20"),
 }
 
 PENDING = {}
